@@ -106,8 +106,15 @@ impl InnerListeners {
             return;
         }
 
+        // The key is not empty: its first character is the shortest non-empty prefix it can
+        // match. (Slicing the first byte would panic on a multi-byte character.)
+        let first_char_len = key_change_event
+            .key
+            .chars()
+            .next()
+            .map_or(0, char::len_utf8);
         let range = (
-            Bound::Included(&key_change_event.key[0..1]),
+            Bound::Included(&key_change_event.key[..first_char_len]),
             Bound::Included(key_change_event.key),
         );
         for (prefix_key, listeners) in self.listeners.range::<str, _>(range) {
